@@ -457,3 +457,129 @@ def written_buffer_sized(chk, rb, unit_fns=()):
                           (" ".join(fn.text(s).split())[:60], P, " ".join(fn.text(bad).split())[:30] if bad is not None else "", fn.line_of(bad) if bad is not None else "", P),
                    key="bufsized|%s|%d" % (P, k))
     chk.floor(R + ":stores", n_store, 1)
+
+
+def source_start(chk, fns, floor=5):
+    """R-RELOC-SOURCE-START: a relocation's source offset is the start of the instruction"""
+    import re
+    from .cfg import forward
+    R = "R-RELOC-SOURCE-START"
+    chk.rule(R, "every assignment to a relocation entry's `_source_offset` in the emitters takes the emitter's offset() (the committed position = "
+                "start of the instruction / data item) or a local that was sampled from the writer before any byte of the instruction could "
+                "have been written: the entry's format counts its leading size from the instruction start, so a position sampled after an "
+                "optional prefix shifts the patched field")
+    n = 0
+    for fn in fns:
+        sites = []
+        for i, x in fn.ex.items():
+            if x["k"] == "binop" and x["op"] == "=" and re.sub(r"\s+", "", fn.text(x["lhs"])).endswith("->_source_offset"):
+                sites.append((i, x["rhs"]))
+        if not sites:
+            continue
+        emits = {i for i, x in fn.calls(lambda x: x["k"] == "mcall" and re.match(r"emit", x.get("cn") or "") and "riter" in (x.get("cls") or "") + fn.text(x.get("obj", 0)))}
+
+        def transfer(b, st):
+            for el in fn.blocks[b]["elems"]:
+                if isinstance(el, int) and el in emits:
+                    st = True
+            return st
+        IN, OUT = forward(fn, False, transfer, lambda ss: any(ss))
+        blk = fn.block_of()
+
+        def emitted_before(eid):
+            j = eid
+            par = fn.parent_map()
+            while j not in blk and j in par:
+                j = par[j]
+            if j not in blk:
+                return True
+            b, idx = blk[j]
+            d = IN.get(b, False)
+            for el in fn.blocks[b]["elems"][:idx]:
+                if isinstance(el, int) and el in emits:
+                    d = True
+            return d
+        defs = {}
+        for i, x in fn.ex.items():
+            if x["k"] == "decl":
+                for v in x["vars"]:
+                    if v.get("init"):
+                        defs.setdefault(v["did"], []).append((i, v["init"]))
+            elif x["k"] == "binop" and x["op"] == "=":
+                l = fn.e(fn.strip(x["lhs"]))
+                if l is not None and l["k"] == "ref" and l.get("dk") == "local":
+                    defs.setdefault(l["did"], []).append((i, x["rhs"]))
+        for i, rhs in sorted(sites):
+            n += 1
+            r = fn.e(fn.strip(rhs))
+            ok = False
+            why = "an expression that is not the emitter's offset()"
+            if r is not None and r["k"] == "mcall" and r.get("cn") == "offset" and (fn.e(fn.strip(r.get("obj"))) or {}).get("k") == "this":
+                ok = True
+            elif r is not None and r["k"] == "ref" and r.get("did") in defs:
+                ds = defs[r["did"]]
+                ok = all(re.search(r"offset_from\(|offset\(\)", fn.text(d[1])) and not emitted_before(d[0]) for d in ds)
+                why = "`%s`, which is sampled from the writer after bytes of the instruction may already have been emitted" % r.get("name")
+            elif r is not None and r.get("cv") == 0:
+                ok = True
+            short = fn.name.replace("asmjit::", "")
+            chk.ob(R, "%s|_source_offset@%d" % (short, n), ok, loc=fn.loc(i),
+                   detail="the relocation's source offset is taken from %s: the field that relocate_to_base() patches is shifted" % why,
+                   key="relocsrc|%s|%d" % (short, n))
+    chk.floor(R + ":assignments", n, floor)
+
+
+def absolute_location_guard(chk, fns, floor=3):
+    """R-ABSOLUTE-LOCATION-GUARD: an address is computed from the base address and the section offset only when BOTH are known"""
+    import re
+    from .must import Must
+    R = "R-ABSOLUTE-LOCATION-GUARD"
+    chk.rule(R, "in the emitters every sum that adds the holder's base address and the current section's offset (locals initialised from "
+                "base_address() and <section>->offset()) is evaluated only on the true edge of EmitterUtils::is_absolute_location(base, offset): "
+                "a section that has not been laid out yet has the offset kNoSectionOffset (all ones), and a base address alone does not make the "
+                "location known")
+    n = 0
+    for fn in fns:
+        bases, offs = set(), set()
+        for i, x in fn.ex.items():
+            if x["k"] == "decl":
+                for v in x["vars"]:
+                    t = re.sub(r"\s+", "", fn.text(v["init"])) if v.get("init") else ""
+                    if t.endswith("base_address()"):
+                        bases.add(v["did"])
+                    if re.search(r"_section->offset\(\)$", t):
+                        offs.add(v["did"])
+        if not bases or not offs:
+            continue
+
+        def edge(b, si, atom, holds, fn=fn):
+            x = fn.e(atom)
+            if x is not None and x["k"] in ("call", "mcall") and x.get("cn") == "is_absolute_location" and holds and len(x.get("args", [])) == 2:
+                a0, a1 = fn.e(fn.strip(x["args"][0])), fn.e(fn.strip(x["args"][1]))
+                if a0 is not None and a1 is not None and a0.get("did") in bases and a1.get("did") in offs:
+                    return [("abs",)]
+            return ()
+        m = Must(fn, None, edge)
+        par = fn.parent_map()
+        seen = set()
+        for i, x in sorted(fn.ex.items()):
+            if x["k"] != "binop" or x["op"] not in ("+", "-"):
+                continue
+            # maximal additive expression
+            if i in par and (fn.e(par[i]) or {}).get("k") == "binop" and (fn.e(par[i]) or {}).get("op") in ("+", "-"):
+                continue
+            dids = {(fn.e(j) or {}).get("did") for j in fn.walk(i) if (fn.e(j) or {}).get("k") == "ref"}
+            if not (dids & bases and dids & offs):
+                continue
+            n += 1
+            j = i
+            st = m.before(j)
+            while st is None and j in par:
+                j = par[j]
+                st = m.before(j)
+            short = fn.name.replace("asmjit::", "")
+            chk.ob(R, "%s|sum@%d" % (short, fn.line_of(i)), ("abs",) in (st or frozenset()), loc=fn.loc(i),
+                   detail="`%s` adds the base address and the section offset on a path that never established is_absolute_location(): with a section "
+                          "that has no offset yet the result is garbage and no relocation is recorded" % " ".join(fn.text(i).split())[:70],
+                   key="abslocation|%s|%d" % (short, n))
+    chk.floor(R + ":sums", n, floor)
